@@ -426,7 +426,8 @@ fn $fname(out: &mut Out, rng: &mut Rng, n: usize) {
             if got.iter().any(|x| x.is_infinite()) {
                 // Rgb -> Hsl divides by `(1 - max) + (1 - min)` whenever `max != min` and `max + min > 1` (4f36dd5; before: `2 - (max + min)`,
                 // which rounded to 0 for a white that arrives as (1 + 2 ulp, 1 - 3 ulp, 1 - ulp) after the change of standard). For max <= 1
-                // the new divisor is never 0; for max > 1 it still cancels exactly when max - 1 == 1 - min
+                // the new divisor is never 0; for max > 1 it cancels exactly when max - 1 == 1 - min, where c404fc5 answers saturation 0.
+                // Nothing lists this clause any more: an infinite component is a violation
                 out.check(false, &format!("hsl-white-inf:{}->{}:{}->{}:{}", $cn, $cn, $n1, $n2, tag), || format!("{}<{}> {} -> {}<{}> {}: infinite component from a finite in-range colour", $cn, $n1, fmt3(&a64), $cn, $n2, fmt3(&got)));
                 continue;
             }
